@@ -64,6 +64,17 @@ check_formula(const Plan& p, const Problem& pr, const RunCfg& rcg, const RunResu
           vmax = std::max(vmax, next[(size_t)v]);
         }
       const std::vector<float>& got = it->second;
+      if (rcg.filter)
+        {
+          // with an inter-update / inter-iteration filter the property only promises non-negativity
+          for (int v = 0; v < pr.nvox; ++v)
+            if (!(got[(size_t)v] >= 0.f))
+              sim::fail("formula:negative_voxel", "after sub-iteration %d (filter on) voxel %d is %.9g", k, v, (double)got[(size_t)v]);
+          for (int v = 0; v < pr.nvox; ++v)
+            lam[(size_t)v] = (double)got[(size_t)v];
+          sim::probe("positivity_with_filter_checked");
+          continue;
+        }
       for (int v = 0; v < pr.nvox; ++v)
         {
           if (!(got[(size_t)v] >= 0.f))
